@@ -375,5 +375,7 @@ def run(ctx):
     check_effect_tables(ctx, "C18")
     from ..rules_common import check_presence_tests, ARG_SCOPE
     check_presence_tests(ctx, "C18.PRESENCE", classes=ARG_SCOPE.get("C18", []))
+    from ..rules_common import check_param_rebinding
+    check_param_rebinding(ctx, "C18.PARAMS", classes=ARG_SCOPE.get("C18", []))
 
 
